@@ -68,7 +68,15 @@ Fixpoint pd (a : byte) (r : re) : list re :=
   | Star x => map (fun x' => cat x' (Star x)) (pd a x)
   end.
 
-Definition pd_set (a : byte) (l : list re) : list re := flat_map (pd a) l.
+(** duplicate-free union (keeps the sets of terms small: without it the list
+    can grow exponentially with the input length) *)
+Fixpoint rdedup (l : list re) : list re :=
+  match l with
+  | [] => []
+  | x :: t => let t' := rdedup t in if existsb (re_eqb x) t' then t' else x :: t'
+  end.
+
+Definition pd_set (a : byte) (l : list re) : list re := rdedup (flat_map (pd a) l).
 
 Definition matchb (r : re) (w : list byte) : bool :=
   existsb nullable (fold_left (fun l a => pd_set a l) w [r]).
@@ -181,13 +189,22 @@ Proof.
       apply IHx. eauto.
 Qed.
 
+Lemma rdedup_In x l : In x (rdedup l) <-> In x l.
+Proof.
+  induction l as [|y t IH]; simpl; [tauto|].
+  destruct (existsb (re_eqb y) (rdedup t)) eqn:E.
+  - rewrite IH. split; [auto|]. intros [<-|H]; [|assumption].
+    apply existsb_exists in E. destruct E as [z [Hz Heq]]. apply re_eqb_eq in Heq. subst z. apply IH. assumption.
+  - simpl. rewrite IH. tauto.
+Qed.
+
 Lemma pd_set_spec l a w :
   (exists r, In r l /\ Matches r (a :: w)) <-> (exists r', In r' (pd_set a l) /\ Matches r' w).
 Proof.
   unfold pd_set. split.
   - intros [r [Hin Hm]]. apply pd_spec in Hm. destruct Hm as [r' [Hin' Hm']].
-    exists r'. split; [|assumption]. apply in_flat_map. eauto.
-  - intros [r' [Hin Hm]]. apply in_flat_map in Hin. destruct Hin as [r [Hin Hin']].
+    exists r'. split; [|assumption]. apply rdedup_In. apply in_flat_map. eauto.
+  - intros [r' [Hin Hm]]. rewrite rdedup_In in Hin. apply in_flat_map in Hin. destruct Hin as [r [Hin Hin']].
     exists r. split; [assumption|]. apply pd_spec. eauto.
 Qed.
 
